@@ -16,6 +16,8 @@ def run(ctx):
     rwk = ctx.rule('R-WAKE', 'condition-variable discipline: Submit notifies after the enqueue; setting the stopped bit '
                    'is followed by notify_all; a worker sleeps only after seeing the queue empty and the pool not '
                    'stopped under the same lock hold', minimum=6)
+    rsf = ctx.rule('R-STOPFINAL', 'stopped is final: the member WasStop() reads is only bit-set / counted, or assigned on a '
+                   'path that established !WasStop()', minimum=2)
     rff = ctx.rule('R-FIFO', 'Submit appends at the back of the queue the workers pop from the front', minimum=2)
     rja = ctx.rule('R-JOINALL', 'Wait() joins every worker and none is detached', minimum=2)
     rls = ctx.rule('R-LISTSPEC', 'detail::List implements the sequence it stands for (PushBack appends, PushFront '
@@ -25,6 +27,7 @@ def run(ctx):
     for cfg, fb in sorted(fbs.items()):
         P = 'yaclib::FairThreadPool'
         ctx.guard(lambda: lib_exec.check_pool_wake(ctx, fb, rwk, rff, rja))
+        ctx.guard(lambda: lib_exec.check_stop_final(ctx, fb, rsf))
         ctx.guard(lambda: lib_list.check_list_spec(ctx, fb, rls))
         ctx.guard(lambda: lib_exec.check_pool_count(ctx, fb, rc))
         ctx.guard(lambda: lib_exec.check_submit_linear(ctx, fb, rl, lambda f: f.clsq == P))
